@@ -97,3 +97,10 @@ fn c10_window_key_injective() {
     kani::cover!(k1 == k2 && !r1);
     kani::cover!(k1 != k2 && !r1 && !r2 && n1 == n2 && (a1 - a2) < 0.00001 && (a2 - a1) < 0.00001);
 }
+
+//@ unit props=C01 tier=quick kind=bounded timeout=1200 funcs="lpc::compute_error; lpc::compute_error_impl::<i32,64>; lpc::compute_error_impl::<i64,64>; find_max_abs" bound="2 samples, order 1 (one predicted sample), every 25-bit sample, coefficient, precision and shift" note="assumption A1 as in c01_compute_error_n3_o1"
+#[kani::proof]
+#[kani::unwind(66)]
+fn c01_compute_error_n2_o1() {
+    c01_compute_error_body::<2, 1>();
+}
